@@ -1513,7 +1513,8 @@ def check_c06(ctx):
                 viol(v, "child_bytes", {"expected": hexs(v["bytes"]), "got": r.get("child_bytes")})
             if r.get("parent_bytes", {}).get("ok") != v["pbytes"]:
                 viol(v, "parent_bytes_differ_from_child_bytes", {"expected": hexs(v["pbytes"]), "got": r.get("parent_bytes")})
-            if not r.get("back", {}).get("same"):
+            if v.get("rt", True) and not r.get("back", {}).get("same"):
+                # (demanded only where the reference itself round-trips the child value)
                 viol(v, "up_then_down_differs", r.get("back"))
         if rep.coverage["traces_validated_against_impl"] % 499 == 1:
             rep.sample({"desc": v["unit"].name, "op": v["k"], "type": v["type"], "ancestor": v["anc"],
